@@ -3,6 +3,7 @@
 /verif/seeded/<id>/ (patch.diff, demo.rs, notes.md, meta.json). Run tools/verify_seeded.sh first."""
 import sys, os, shutil, json
 src, sid, prop, needs = sys.argv[1:5]
+extra = sys.argv[5] if len(sys.argv) > 5 else ''
 dst = f'/verif/seeded/{sid}'
 os.makedirs(dst, exist_ok=True)
 for f in ('patch.diff','demo.rs','notes.md'):
@@ -13,10 +14,14 @@ for k,f in (('demo_without_patch','.verify_demo_without.log'),('demo_with_patch'
     if os.path.exists(p):
         lines=[l.strip() for l in open(p,errors='replace') if l.startswith('test result')]
         ver[k]=lines[:2]
-meta = dict(id=sid, property=prop, origin='independent sub-agent given only the property text and a scratch worktree',
+origin = 'independent sub-agent given only the property text and a scratch worktree'
+if sid.startswith('r2'):
+    origin = 'round-2 sub-agent: given the property text and a scratch worktree, and additionally told in general terms what a randomized differential tester / adversarial RNG simulator already does (no file from /verif), and asked for changes such a tester would likely miss'
+meta = dict(id=sid, property=prop, origin=origin,
             needs_to_manifest=needs,
             confirmed_by='tools/verify_seeded.sh in a scratch worktree: demo passes without the patch, fails with it; existing suite passes with it',
             confirmation=ver,
+            note=extra,
             how_to_run='git -C /repo apply /verif/seeded/%s/patch.diff && ./check %s quick ; git -C /repo checkout -- .' % (sid, prop))
 json.dump(meta, open(os.path.join(dst,'meta.json'),'w'), indent=1)
 print('kept', dst)
